@@ -70,3 +70,137 @@ pub proof fn lemma_cut_recs(u: Seq<u8>, v: Seq<u8>, st: int, n: int, k: int)
         assert(v.subrange(a - d, b - d) =~= u.subrange(a, b));
     }
 }
+
+// ---- C09 "All other records, their order ... stay equal": the records of a run under the edit of spec/pfmut.rs
+pub proof fn lemma_shifted_recs(p1: Seq<u8>, a: int, n: int, p2: Seq<u8>, b: int)
+    requires pf_rrs(p1, a, n), 0 <= a <= p1.len(), b >= 0, b + (pf_rrs_end(p1, a, n) - a) <= p2.len(),
+             forall|i: int| a <= i < pf_rrs_end(p1, a, n) ==> p1[i] == p2[i - a + b],
+    ensures forall|j: int| 0 <= j < n ==> #[trigger] rec_bytes(p2, b, j) == rec_bytes(p1, a, j),
+{
+    hide(pf_rr);
+    lemma_pf_rrs_ends_shift(p1, a, n, p2, b);
+    assert forall|j: int| 0 <= j < n implies #[trigger] rec_bytes(p2, b, j) == rec_bytes(p1, a, j) by {
+        let x = pf_rrs_end(p1, a, j); let y = pf_rrs_end(p1, a, j + 1);
+        lemma_pf_rrs_mono(p1, a, n, j, j + 1);
+        assert(pf_rrs_end(p2, b, j) == x - a + b && pf_rrs_end(p2, b, j + 1) == y - a + b);
+        assert(p2.subrange(x - a + b, y - a + b) =~= p1.subrange(x, y));
+    }
+}
+pub proof fn lemma_run_edit_recs(u: Seq<u8>, st: int, n: int, k: int, rm: int, v: Seq<u8>, wl: int, m: int)
+    requires run_edit_pre(u, st, n, k, rm, v, wl, m)
+    ensures forall|j: int| 0 <= j < k ==> #[trigger] rec_bytes(v, st, j) == rec_bytes(u, st, j),
+        forall|j: int| k + rm <= j < n ==> rec_bytes(v, st, j - rm + m) == #[trigger] rec_bytes(u, st, j),
+{
+    hide(pf_rr);
+    let a = pf_rrs_end(u, st, k); let b = pf_rrs_end(u, st, k + rm); let e = pf_rrs_end(u, st, n); let d = wl - (b - a);
+    lemma_run_edit(u, st, n, k, rm, v, wl, m);
+    lemma_pf_rrs_split(u, st, n, k); lemma_pf_rrs_split(u, st, n, k + rm);
+    // prefix in place
+    assert forall|i: int| st <= i < pf_rrs_end(u, st, k) implies u[i] == v[i - st + st] by { }
+    lemma_shifted_recs(u, st, k, v, st);
+    // suffix moved by d: record i of the suffix is record k+rm+i of u and record k+m+i of v
+    assert forall|i: int| b <= i < pf_rrs_end(u, b, n - k - rm) implies u[i] == v[i - b + (a + wl)] by { assert(v[i + d] == u[i]); }
+    lemma_shifted_recs(u, b, n - k - rm, v, a + wl);
+    lemma_pf_rrs_one(v, a);
+    assert forall|j: int| k + rm <= j < n implies rec_bytes(v, st, j - rm + m) == #[trigger] rec_bytes(u, st, j) by {
+        let i = j - k - rm;
+        assert(rec_bytes(v, a + wl, i) == rec_bytes(u, b, i));
+        // boundaries of u
+        lemma_pf_rrs_split(u, st, n, j); lemma_pf_rrs_split(u, st, j, k + rm);
+        lemma_pf_rrs_split(u, st, n, j + 1); lemma_pf_rrs_split(u, st, j + 1, k + rm);
+        assert(pf_rrs_end(u, b, i) == pf_rrs_end(u, st, j) && pf_rrs_end(u, b, i + 1) == pf_rrs_end(u, st, j + 1));
+        // boundaries of v: k prefix records, m new ones, then the suffix
+        let nv = n - rm + m;
+        lemma_pf_rrs_split(v, st, nv, k + m); lemma_pf_rrs_split(v, st, k + m, k);
+        assert(pf_rrs_end(v, st, k + m) == a + wl) by { if m == 1 { } }
+        lemma_pf_rrs_split(v, st, nv, k + m + i); lemma_pf_rrs_split(v, st, k + m + i, k + m);
+        lemma_pf_rrs_split(v, st, nv, k + m + i + 1); lemma_pf_rrs_split(v, st, k + m + i + 1, k + m);
+        assert(pf_rrs_end(v, a + wl, i) == pf_rrs_end(v, st, k + m + i) && pf_rrs_end(v, a + wl, i + 1) == pf_rrs_end(v, st, k + m + i + 1));
+    }
+}
+// the whole packet: every record of every section other than the edited one keeps its bytes and its index; in the edited section the
+// records before position k keep index and bytes, the records after the removed one keep their bytes and follow the new one
+pub open spec fn others_kept(u: Seq<u8>, v: Seq<u8>, si: int, k: int, rm: int, m: int) -> bool {
+    v.subrange(12, pf_q_end(u)) == u.subrange(12, pf_q_end(u))
+    && (forall|sj: int, j: int| 1 <= sj <= 3 && sj != si && 0 <= j < sec_n(u, sj) ==> #[trigger] rec_bytes(v, sec_st(v, sj), j) == rec_bytes(u, sec_st(u, sj), j))
+    && (forall|j: int| 0 <= j < k ==> #[trigger] rec_bytes(v, sec_st(v, si), j) == rec_bytes(u, sec_st(u, si), j))
+    && (forall|j: int| k + rm <= j < sec_n(u, si) ==> rec_bytes(v, sec_st(v, si), j - rm + m) == #[trigger] rec_bytes(u, sec_st(u, si), j))
+}
+pub proof fn lemma_pkt_edit_recs(u: Seq<u8>, v: Seq<u8>, si: int, k: int, rm: int, wl: int, m: int)
+    requires pkt_edit_pre(u, v, si, k, rm, wl, m)
+    ensures others_kept(u, v, si, k, rm, m)
+{
+    hide(pf_rr); hide(pf_rrs); hide(pf_rrs_end); hide(pf_n_opt); hide(pf_packet); hide(rec_bytes);
+    let st = sec_st(u, si); let n = sec_n(u, si); let a = pf_rrs_end(u, st, k); let b = pf_rrs_end(u, st, k + rm); let d = wl - (b - a);
+    let o1 = pf_q_end(u); let an = be16(u, 6) as int; let ns = be16(u, 8) as int; let ar = be16(u, 10) as int; let e1 = pf_e1(u); let e2 = pf_e2(u);
+    lemma_pkt_edit(u, v, si, k, rm, wl, m);
+    lemma_pf_packet_facts(u);
+    assert(v.subrange(12, o1) =~= u.subrange(12, o1));
+    assert(run_edit_pre(u, st, n, k, rm, v, wl, m)) by {
+        lemma_pf_rrs_split(u, st, n, k + rm); lemma_pf_rrs_bounds(u, st, k + rm); lemma_pf_rrs_bounds(u, b, n - k - rm);
+    }
+    lemma_run_edit_recs(u, st, n, k, rm, v, wl, m);
+    if si == 1 {
+        assert forall|i: int| e1 <= i < pf_rrs_end(u, e1, ns) implies u[i] == v[i - e1 + (e1 + d)] by { assert(v[i + d] == u[i]); }
+        lemma_shifted_recs(u, e1, ns, v, e1 + d);
+        assert forall|i: int| e2 <= i < pf_rrs_end(u, e2, ar) implies u[i] == v[i - e2 + (e2 + d)] by { assert(v[i + d] == u[i]); }
+        lemma_shifted_recs(u, e2, ar, v, e2 + d);
+    } else if si == 2 {
+        assert forall|i: int| o1 <= i < pf_rrs_end(u, o1, an) implies u[i] == v[i - o1 + o1] by { }
+        lemma_shifted_recs(u, o1, an, v, o1);
+        assert forall|i: int| e2 <= i < pf_rrs_end(u, e2, ar) implies u[i] == v[i - e2 + (e2 + d)] by { assert(v[i + d] == u[i]); }
+        lemma_shifted_recs(u, e2, ar, v, e2 + d);
+    } else {
+        assert forall|i: int| o1 <= i < pf_rrs_end(u, o1, an) implies u[i] == v[i - o1 + o1] by { }
+        lemma_shifted_recs(u, o1, an, v, o1);
+        assert forall|i: int| e1 <= i < pf_rrs_end(u, e1, ns) implies u[i] == v[i - e1 + e1] by { }
+        lemma_shifted_recs(u, e1, ns, v, e1);
+    }
+    assert forall|sj: int, j: int| 1 <= sj <= 3 && sj != si && 0 <= j < sec_n(u, sj) implies #[trigger] rec_bytes(v, sec_st(v, sj), j) == rec_bytes(u, sec_st(u, sj), j) by { }
+}
+
+// ---- C09 for the three operations on a record section of a pointer-free packet: everything else keeps its bytes and its order
+pub proof fn lemma_named_recs(fin: ParsedPacket, mid: ParsedPacket, si: int, k: int, nm: Seq<u8>)
+    requires mid.wf(), pf_packet(mid.bytes()), 1 <= si <= 3, 0 <= k < sec_n(mid.bytes(), si), is_cname(nm),
+        ({ let u = mid.bytes(); let o = pf_rrs_end(u, sec_st(u, si), k); !pf_is_opt(u, o) && named(fin, mid, o as usize, pcs_end(u, o).unwrap(), nm) }),
+    ensures ({ let u = mid.bytes(); let v = fin.bytes(); let st = sec_st(u, si); let o = pf_rrs_end(u, st, k); let ne = pcs_end(u, o).unwrap();
+        others_kept(u, v, si, k, 1, 1)
+        // the record itself: the new owner name followed by the old type / class / TTL / RDLENGTH / RDATA
+        && rec_bytes(v, st, k) == nm + u.subrange(ne, pf_end(u, o)) }),
+{
+    hide(pf_rr); hide(pf_rrs); hide(pf_n_opt); hide(pf_packet); hide(ParsedPacket::wf); hide(pcs_walk);
+    let u = mid.bytes(); let v = fin.bytes(); let st = sec_st(u, si); let n = sec_n(u, si); let o = pf_rrs_end(u, st, k); let ne = pcs_end(u, o).unwrap(); let next = pf_end(u, o);
+    lemma_named_wf(fin, mid, si, k, nm);
+    lemma_pkt_edit_recs(u, v, si, k, 1, nm.len() + (next - ne), 1);
+    lemma_pf_packet_facts(v);
+    lemma_opt_at_3(v, st, n, k, 1);
+    lemma_section_at(mid, si, k);
+    lemma_pf_rr_spec(u, o, SecT::Answer, false);
+    lemma_pcs_bounds(u, o, 0);
+    assert(pcs_end(u, o).is_some() && o < ne && ne + 10 <= next && next <= u.len()) by { reveal(pf_rr); }
+    assert(v.subrange(o, o + nm.len() + (next - ne)) =~= nm + u.subrange(ne, next));
+}
+pub proof fn lemma_deleted_recs(fin: ParsedPacket, mid: ParsedPacket, si: int, k: int)
+    requires mid.wf(), pf_packet(mid.bytes()), 1 <= si <= 3, 0 <= k < sec_n(mid.bytes(), si),
+        ({ let u = mid.bytes(); let o = pf_rrs_end(u, sec_st(u, si), k); deleted(fin, mid, o as usize, pf_end(u, o), sec_of_idx(si), si == 3 && pf_is_opt(u, o)) }),
+    ensures others_kept(mid.bytes(), fin.bytes(), si, k, 1, 0)
+{
+    lemma_deleted_wf(fin, mid, si, k);
+    lemma_pkt_edit_recs(mid.bytes(), fin.bytes(), si, k, 1, 0, 0);
+}
+pub proof fn lemma_inserted_recs(fin: ParsedPacket, mid: ParsedPacket, si: int, rr: Seq<u8>)
+    requires mid.wf(), pf_packet(mid.bytes()), 1 <= si <= 3, sec_n(mid.bytes(), si) < 0xffff, pf_rr(rr, 0), pf_end(rr, 0) == rr.len(), !pf_is_opt(rr, 0),
+        inserted(fin, mid, sec_of_idx(si), rr),
+    ensures ({ let u = mid.bytes(); let v = fin.bytes(); let n = sec_n(u, si);
+        others_kept(u, v, si, n, 0, 1) && rec_bytes(v, sec_st(u, si), n) == rr }),
+{
+    hide(pf_rr); hide(pf_rrs); hide(pf_n_opt); hide(pf_packet); hide(ParsedPacket::wf); hide(pcs_walk); hide(inserted);
+    let u = mid.bytes(); let v = fin.bytes(); let st = sec_st(u, si); let n = sec_n(u, si); let a = pf_rrs_end(u, st, n);
+    lemma_inserted_wf(fin, mid, si, rr);
+    lemma_pkt_edit_recs(u, v, si, n, 0, rr.len() as int, 1);
+    lemma_pf_packet_facts(v);
+    lemma_opt_at_3(v, st, n + 1, n, 1);
+    lemma_pf_packet_facts(u);
+    lemma_pf_rrs_bounds(u, st, n);
+    assert(v.subrange(a, a + rr.len()) =~= rr) by { reveal(inserted); lemma_pf_rr_spec(rr, 0, SecT::Answer, false); }
+}
